@@ -2,11 +2,13 @@ import Gonuts.Gen.Code
 import Gonuts.Lemmas.GoSem
 import Gonuts.Lemmas.Amount
 import Gonuts.Model.Select
+import Gonuts.Model.Spend
 /-!
   The TRANSLATED code (`Gonuts/Gen/Code.lean`, regenerated from /repo's Go source by `extract/translate.go` on every
   run) equals the hand-written model — for ALL inputs.  These are the proof obligations that tie the arithmetic /
   decision helpers of `cashu/cashu.go`, `wallet/wallet.go` and `mint/mint.go` to `Model/Amount.lean` and
-  `Model/Select.lean`, on which the theorems of C02, C06, C16, C18 rest:
+  `Model/Select.lean` (C02, C06, C09, C16, C18), the wallet's `inputsWithoutDLEQ` (C08), `nut11.IsSigAll` /
+  `DuplicateSignatures` to `Model/Spend.lean` (C12, C13) and the state enumerations of NUT-04/05/07 (C15, C20):
 
   * a semantic change of one of these Go functions (a `<` that becomes `<=`, a dropped overflow check, a fee rounded
     down, a wrong shift, a duplicate test on another field) changes the regenerated definition, and the theorem about it
@@ -309,11 +311,198 @@ theorem feesForProofs_spec (proofs : List Proof) (mint : walletMint)
     (Gen.Code.feesForProofs proofs mint).toNat = ceilDiv1000 (natSum (proofs.map (fun p => ppkOf mint p.Id))) := by
   rw [feesForProofs_eq]; exact feesOfPpks_exact _ h
 
+/-! ## wallet/wallet.go: inputsWithoutDLEQ (C08) -/
+
+theorem set_append_replicate {α : Type} (pre : List α) (d v : α) (n : Nat) :
+    (pre ++ List.replicate (n + 1) d).set pre.length v = (pre ++ [v]) ++ List.replicate n d := by
+  induction pre with
+  | nil => simp [List.replicate_succ]
+  | cons a pre ih => simp [ih]
+
+theorem stripLoop (f : Proof → Proof) (body : Nat → Proof → List Proof → Ctl (List Proof) × List Proof)
+    (hb : ∀ i p st, body i p st = (.next, st.set i (f p))) :
+    ∀ (xs pre : List Proof), rangeLoopFrom body pre.length xs (pre ++ List.replicate xs.length default) =
+      (.next, pre ++ xs.map f) := by
+  intro xs
+  induction xs with
+  | nil => intro pre; simp [rangeLoopFrom]
+  | cons x xs ih =>
+    intro pre
+    simp only [rangeLoopFrom, hb, List.length_cons, set_append_replicate]
+    have := ih (pre ++ [f x])
+    simp only [List.length_append, List.length_singleton] at this
+    rw [this]
+    simp
+
+/-- the copies that go into a swap / melt request are the stored proofs with the DLEQ proof removed, in order -/
+theorem inputsWithoutDLEQ_eq (ps : List Proof) :
+    inputsWithoutDLEQ ps = ps.map (fun p => { p with DLEQ := none }) := by
+  unfold inputsWithoutDLEQ rangeLoop
+  cases ps with
+  | nil => rfl
+  | cons p ps =>
+    simp only [List.isEmpty_cons, Bool.false_eq_true, if_false, Int.toNat_natCast]
+    have := stripLoop (fun p => { p with DLEQ := none })
+      (fun i_n proof st => (Ctl.next, st.set (Int.toNat (Int.ofNat i_n)) { proof with DLEQ := none }))
+      (fun i p st => by simp) (p :: ps) []
+    simp only [List.length_nil, List.nil_append] at this
+    exact congrArg (fun r => match r with | (Ctl.ret r__, _) => r__ | (_, inputs) => inputs) this |>.trans (by rfl)
+
+/-- no DLEQ proof (hence no blinding factor `r`) is left in what `inputsWithoutDLEQ` returns; everything else is kept -/
+theorem inputsWithoutDLEQ_spec (ps : List Proof) :
+    (inputsWithoutDLEQ ps).length = ps.length ∧ (∀ q ∈ inputsWithoutDLEQ ps, q.DLEQ = none) ∧
+    (inputsWithoutDLEQ ps).map (fun p => (p.Amount, p.Id, p.Secret, p.C, p.Witness)) =
+      ps.map (fun p => (p.Amount, p.Id, p.Secret, p.C, p.Witness)) := by
+  rw [inputsWithoutDLEQ_eq]
+  refine ⟨by simp, ?_, by simp [List.map_map, Function.comp_def]⟩
+  intro q hq
+  obtain ⟨p, _, rfl⟩ := List.mem_map.mp hq
+  rfl
+
+/-! ## cashu/nuts/nut11: IsSigAll, DuplicateSignatures (C12, C13) -/
+
+theorem anyLoop {α : Type} (t : α → Bool) (body : Nat → α → Unit → Ctl Bool × Unit)
+    (hb : ∀ i x, body i x () = if t x then (.ret true, ()) else (.next, ())) :
+    ∀ (i : Nat) (xs : List α), rangeLoopFrom body i xs () = if xs.any t then (.ret true, ()) else (.next, ()) := by
+  intro i xs
+  induction xs generalizing i with
+  | nil => simp [rangeLoopFrom]
+  | cons x xs ih =>
+    simp only [rangeLoopFrom, hb, List.any_cons]
+    by_cases h : t x = true
+    · rw [if_pos h]; simp [h]
+    · rw [if_neg h]; simp [h, ih]
+
+/-- `nut11.IsSigAll` = the model's `Spend.isSigAll`: some tag is exactly `["sigflag", "SIG_ALL"]` -/
+theorem nut11_IsSigAll_eq (s : WellKnownSecret) (k : Spend.Kind) :
+    nut11_IsSigAll s = Spend.isSigAll { kind := k, data := s.Data.Data, tags := s.Data.Tags } := by
+  unfold nut11_IsSigAll rangeLoop Spend.isSigAll
+  rw [anyLoop (fun tag => match tag with
+      | [a, b] => decide (a = Spend.SIGFLAG) && decide (b = Spend.SIGALL)
+      | _ => false)]
+  · cases h : s.Data.Tags.any _ <;> simp [h]
+  · intro i tag
+    match tag with
+    | [] => simp
+    | [a] => simp
+    | [a, b] =>
+      simp only [List.length_cons, List.length_nil, Go.idx, Spend.SIGFLAG, Spend.SIGALL]
+      by_cases h1 : a = "sigflag" <;> by_cases h2 : b = "SIG_ALL" <;> simp [h1, h2]
+    | a :: b :: c :: rest =>
+      have hlen : ¬ ((Int.ofNat ((a :: b :: c :: rest).length)) == (2 : Int)) = true := by
+        simp only [beq_iff_eq, List.length_cons, Int.ofNat_eq_natCast]; omega
+      simp only [hlen]
+      simp
+
+theorem dupStrLoop_spec (xs : List String) : ∀ (i : Nat) (m : List (String × Bool)) (seen : List String),
+    (∀ k, mapGet m k = true ↔ k ∈ seen) → seen.Nodup →
+    ((¬ (seen ++ xs).Nodup → ∃ m', rangeLoopFrom (ρ := Bool) (fun _ (x : String) (st : List (String × Bool)) =>
+        if mapGet st x = true then (Ctl.ret true, st) else (Ctl.next, mapSet st x true)) i xs m = (Ctl.ret true, m')) ∧
+     ((seen ++ xs).Nodup → ∃ m', rangeLoopFrom (ρ := Bool) (fun _ (x : String) (st : List (String × Bool)) =>
+        if mapGet st x = true then (Ctl.ret true, st) else (Ctl.next, mapSet st x true)) i xs m = (Ctl.next, m'))) := by
+  induction xs with
+  | nil => intro i m seen _ hn; simp [rangeLoopFrom, hn]
+  | cons x xs ih =>
+    intro i m seen hm hn
+    simp only [rangeLoopFrom]
+    by_cases hx : mapGet m x = true
+    · simp only [hx, if_true]
+      refine ⟨fun _ => ⟨m, rfl⟩, fun hnd => ?_⟩
+      have := (hm x).mp hx
+      rw [List.nodup_append] at hnd
+      exact absurd rfl (hnd.2.2 _ this _ List.mem_cons_self)
+    · simp only [hx]
+      have hnot : x ∉ seen := fun h => hx ((hm x).mpr h)
+      have := ih (i + 1) (mapSet m x true) (seen ++ [x]) (by
+        intro k
+        simp only [mapSet, mapGet, List.lookup_cons, List.mem_append, List.mem_singleton]
+        by_cases hk : k = x
+        · simp [hk]
+        · have hk' : (k == x) = false := by simpa using hk
+          simp only [hk', hk, or_false]
+          exact hm k) (by
+        rw [List.nodup_append]
+        exact ⟨hn, by simp, by intro a ha b hb; simp at hb; subst hb; intro h; exact hnot (h ▸ ha)⟩)
+      simpa [List.append_assoc] using this
+
+/-- `nut11.DuplicateSignatures` answers true exactly when a signature string occurs twice in the witness -/
+theorem nut11_DuplicateSignatures_iff (sigs : List String) :
+    nut11_DuplicateSignatures sigs = true ↔ ¬ sigs.Nodup := by
+  unfold nut11_DuplicateSignatures rangeLoop
+  dsimp only
+  have h := dupStrLoop_spec sigs 0 [] [] (by intro k; simp [mapGet]) List.nodup_nil
+  simp only [List.nil_append] at h
+  by_cases hn : sigs.Nodup
+  · obtain ⟨m', hm⟩ := h.2 hn
+    simp [hm, hn]
+  · obtain ⟨m', hm⟩ := h.1 hn
+    simp [hm, hn]
+
+/-! ## the state enumerations of NUT-04 / NUT-05 / NUT-07 and the NUT-10 kinds (C15, C20): `String` and
+    `StringToState` are inverse on the listed states, and every other string is the Unknown state -/
+
+theorem nut07_state_roundtrip (s : Int) (h : s = 0 ∨ s = 1 ∨ s = 2) :
+    nut07_StringToState (nut07_State_String s) = s := by rcases h with rfl | rfl | rfl <;> decide
+
+theorem nut07_string_roundtrip (str : String) :
+    (str ∈ ["UNSPENT", "PENDING", "SPENT"] → nut07_State_String (nut07_StringToState str) = str) ∧
+    (str ∉ ["UNSPENT", "PENDING", "SPENT"] → nut07_StringToState str = 3) := by
+  unfold nut07_StringToState
+  constructor
+  · intro h
+    simp only [List.mem_cons, List.not_mem_nil, or_false] at h
+    rcases h with rfl | rfl | rfl <;> decide
+  · intro h
+    simp only [List.mem_cons, List.not_mem_nil, or_false, not_or] at h
+    simp [h.1, h.2.1, h.2.2]
+
+theorem nut04_state_roundtrip (s : Int) (h : s = 0 ∨ s = 1 ∨ s = 2 ∨ s = 3) :
+    nut04_StringToState (nut04_State_String s) = s := by rcases h with rfl | rfl | rfl | rfl <;> decide
+
+theorem nut04_string_roundtrip (str : String) :
+    (str ∈ ["UNPAID", "PAID", "ISSUED", "PENDING"] → nut04_State_String (nut04_StringToState str) = str) ∧
+    (str ∉ ["UNPAID", "PAID", "ISSUED", "PENDING"] → nut04_StringToState str = 4) := by
+  unfold nut04_StringToState
+  constructor
+  · intro h
+    simp only [List.mem_cons, List.not_mem_nil, or_false] at h
+    rcases h with rfl | rfl | rfl | rfl <;> decide
+  · intro h
+    simp only [List.mem_cons, List.not_mem_nil, or_false, not_or] at h
+    simp [h.1, h.2.1, h.2.2.1, h.2.2.2]
+
+theorem nut05_state_roundtrip (s : Int) (h : s = 0 ∨ s = 1 ∨ s = 2) :
+    nut05_StringToState (nut05_State_String s) = s := by rcases h with rfl | rfl | rfl <;> decide
+
+theorem nut05_string_roundtrip (str : String) :
+    (str ∈ ["UNPAID", "PENDING", "PAID"] → nut05_State_String (nut05_StringToState str) = str) ∧
+    (str ∉ ["UNPAID", "PENDING", "PAID"] → nut05_StringToState str = 3) := by
+  unfold nut05_StringToState
+  constructor
+  · intro h
+    simp only [List.mem_cons, List.not_mem_nil, or_false] at h
+    rcases h with rfl | rfl | rfl <;> decide
+  · intro h
+    simp only [List.mem_cons, List.not_mem_nil, or_false, not_or] at h
+    simp [h.1, h.2.1, h.2.2]
+
+/-- the spellings the extracted switch tables list (Gen/Facts) are the ones the translated functions answer -/
+theorem nut10_kind_strings : nut10_SecretKind_String 1 = "P2PK" ∧ nut10_SecretKind_String 2 = "HTLC" ∧
+    ∀ k : Int, k ≠ 1 → k ≠ 2 → nut10_SecretKind_String k = "anyonecanspend" := by
+  refine ⟨by decide, by decide, ?_⟩
+  intro k h1 h2
+  unfold nut10_SecretKind_String
+  simp [h1, h2]
+
 /-! ## non-vacuity: the regenerated definitions compute (closed instances, evaluated by the kernel) -/
 example : AmountSplit 64 13 = some [1, 4, 8] := by decide
 example : OverflowAddUint64 18446744073709551615 1 = (18446744073709551615, true) := by decide
 example : CheckDuplicateBlindedMessages
     [{ Amount := 1, B_ := "02aa", Id := "00", Witness := "" }, { Amount := 2, B_ := "02aa", Id := "00", Witness := "w" }] = true := by decide
+example : inputsWithoutDLEQ [{ Amount := 4, Id := "00ab", Secret := "s", C := "02cc", Witness := "", DLEQ := some { E := "e", S := "s", R := "r" } }] =
+    [{ Amount := 4, Id := "00ab", Secret := "s", C := "02cc", Witness := "", DLEQ := none }] := by decide
+example : nut11_IsSigAll { Kind := 1, Data := { Nonce := "n", Data := "02aa", Tags := [["locktime", "5"], ["sigflag", "SIG_ALL"]] } } = true := by decide
+example : nut11_DuplicateSignatures ["aa", "bb", "aa"] = true := by decide
 example : Gen.Code.feesForCount 3 { Id := "", MintURL := "", Unit := "sat", Active := true, Counter := 0, InputFeePpk := 100 } = 1 := by decide
 
 end Gonuts.Tie.Code
